@@ -184,7 +184,7 @@ func optsFor(g string) []string {
 	switch strings.TrimSuffix(g, "-512") {
 	case "G13":
 		o = append(o, "referrers", "referrers-filter")
-	case "G14":
+	case "G14", "G21":
 		o = append(o, "digest-tags")
 	case "G9":
 		o = append(o, "external")
@@ -223,6 +223,12 @@ func breadthScenarios() []Scen {
 			}
 		}
 	}
+	for _, p := range allPairs {
+		if p != "same-repo" {
+			out = append(out, Scen{Graph: "G21", Pair: p, Opt: "digest-tags", Feat: "full", Pre: "empty", ByDigest: true})
+			out = append(out, Scen{Graph: "G14", Pair: p, Opt: "digest-tags", Feat: "full", Pre: "empty", ByDigest: true})
+		}
+	}
 	// by-digest targets
 	for _, g := range []string{"G1", "G3", "G4"} {
 		for _, p := range []string{"two-reg", "reg-dir", "same-reg-grant"} {
@@ -233,7 +239,7 @@ func breadthScenarios() []Scen {
 }
 
 func graphsAll() []string {
-	return []string{"G1", "G2", "G3", "G4", "G5", "G6", "G7", "G8", "G9", "G10", "G11", "G13", "G14", "G15", "G17", "G18", "G1-512", "G3-512"}
+	return []string{"G1", "G2", "G3", "G4", "G5", "G6", "G7", "G8", "G9", "G10", "G11", "G13", "G14", "G15", "G17", "G18", "G19", "G20", "G21", "G1-512", "G3-512"}
 }
 
 // masks: every subset of the source closure pre-existing at the target
@@ -306,7 +312,7 @@ func schedScenarios(thorough bool) []schedItem {
 				switch g {
 				case "G13":
 					opt = "referrers"
-				case "G14":
+				case "G14", "G21":
 					opt = "digest-tags"
 				case "G9":
 					opt = "external"
